@@ -74,7 +74,7 @@ def plan(tier, seed):
 def run_shard(spec, acc):
     runner.quiet()
     rng = random.Random('c10-%s-%s' % (spec['seed'], spec['shard']))
-    nstates = 3 if spec['tier'] == 'quick' else 16
+    nstates = 3 if spec['tier'] == 'quick' else 45
     configs = [{'layout': l, 'queue_mode': q}
                for l in LAYOUTS for q in ('queue', 'noqueue', 'skipqueue')]
     configs.append({'layout': 'd2', 'queue_mode': 'queue',
